@@ -165,9 +165,11 @@ def lhs_text(name, t) -> str:
     return name if t == "none" else f"{t}({name})"
 
 
-def source_of(model) -> str:
+def source_of(model, src_order=None) -> str:
+    """model source; `src_order` lists the equations (indexes into model["eqs"]) in the order they are written"""
     lines = ["!equations"]
-    for e in model["eqs"]:
+    for i in (src_order if src_order is not None else range(len(model["eqs"]))):
+        e = model["eqs"][i]
         lines.append(f"  {lhs_text(e['lhs'], e['tr'])} {'===' if e['identity'] else '='} {e['rhs']};")
     if model["params"]:
         lines.append("!parameters")
@@ -322,51 +324,86 @@ def gen_case(rng, wild=None) -> dict:
     exogenizable = sorted({e["lhs"] for e in model["eqs"] if not e["identity"]})
     if exogenizable and rng.random() < 0.75:
         for _ in range(rng.randint(1, 3)):
-            name = rng.choice(exogenizable)
+            # ONE plan.exogenize call: one or several names (a list, or ... = every exogenizable name)
+            r = rng.random()
+            ell_names = False
+            if len(exogenizable) >= 2 and r < 0.4:
+                if r < 0.1:
+                    names, ell_names = list(exogenizable), True
+                else:
+                    names = sorted(rng.sample(exogenizable, rng.randint(2, min(3, len(exogenizable)))))
+                    rng.shuffle(names)
+            else:
+                names = [rng.choice(exogenizable)]
             kind = rng.choice(["none", "none", "log", "diff", "diff_log", "roc", "pct", "flat"])
-            cols = sorted(rng.sample(range(nper), rng.randint(1, nper)))
+            ell_dates = rng.random() < 0.1
+            cols = list(range(nper)) if ell_dates else sorted(rng.sample(range(nper), rng.randint(1, nper)))
             shift = -1
             if kind in ("diff", "diff_log", "roc", "pct", "flat"):
                 # values_before[shift] must exist: column + shift >= 0 in the dataslate
                 room = cols[0] - lo
                 if room < 1:
+                    ell_dates = False
                     cols = [c for c in cols if c - lo >= 1]
                     if not cols:
                         continue
                     room = cols[0] - lo
                 if room >= 2 and rng.random() < 0.2:
                     shift = -2
-            p = {"name": name, "kind": kind, "cols": cols, "when_data": rng.random() < 0.35, "shift": shift,
-                 "name_format": None}
+            p = {"names": names, "kind": kind, "cols": cols, "when_data": rng.random() < 0.35, "shift": shift,
+                 "name_format": None, "ellipsis_names": ell_names, "ellipsis_dates": ell_dates}
             if kind != "flat" and rng.random() < 0.1:
                 p["name_format"] = "exo_{}_" + kind
             plan.append(p)
-            dbn = plan_databox_name(p)
-            if dbn is not None and rng.random() < 0.92:
-                full = rng.random() < 0.6
-                a, b = (0, nper - 1) if full else (min(cols), max(cols))
-                pn = 0.3 if p["when_data"] else p_nan
-                if kind in ("none",):
-                    vals = [val() if rng.random() >= pn else NAN for _ in range(a, b + 1)]
-                    if dbn in db:      # keep initial conditions, overwrite in-sample values
-                        old = db[dbn]
-                        vv = {old["off"] + i: x for i, x in enumerate(old["values"])}
-                        vv.update({a + i: x for i, x in enumerate(vals)})
-                        ks = range(min(vv), max(vv) + 1)
-                        db[dbn] = {"off": min(vv), "values": [vv.get(k_, NAN) for k_ in ks]}
+            for name in names:
+                dbn = plan_databox_name(p, name)
+                if dbn is not None and rng.random() < 0.92:
+                    full = rng.random() < 0.6
+                    a, b = (0, nper - 1) if full else (min(cols), max(cols))
+                    pn = 0.3 if p["when_data"] else p_nan
+                    if kind in ("none",):
+                        vals = [val() if rng.random() >= pn else NAN for _ in range(a, b + 1)]
+                        if dbn in db:      # keep initial conditions, overwrite in-sample values
+                            old = db[dbn]
+                            vv = {old["off"] + i: x for i, x in enumerate(old["values"])}
+                            vv.update({a + i: x for i, x in enumerate(vals)})
+                            ks = range(min(vv), max(vv) + 1)
+                            db[dbn] = {"off": min(vv), "values": [vv.get(k_, NAN) for k_ in ks]}
+                        else:
+                            db[dbn] = {"off": a, "values": vals}
                     else:
-                        db[dbn] = {"off": a, "values": vals}
-                else:
-                    gen = {"log": lambda: rng.choice([0.0, 0.5, -0.5, 1.0]),
-                           "diff": lambda: rng.choice([0.5, -0.25, 1.0, 0.1]),
-                           "diff_log": lambda: rng.choice([0.01, 0.05, -0.02, 0.1]),
-                           "roc": lambda: rng.choice([1.01, 1.05, 0.98, 1.1]),
-                           "pct": lambda: rng.choice([1.0, 5.0, -2.0, 0.5])}[kind]
-                    db[dbn] = {"off": a, "values": [float(gen()) if rng.random() >= pn else NAN for _ in range(a, b + 1)]}
-            if rng.random() < 0.2:
-                _zero_implied_point(rng, db, p)
-    return {"model": model, "source": source_of(model), "freq": freq, "start": start, "nper": nper, "db": db,
-            "plan": plan, "opts": opts}
+                        gen = {"log": lambda: rng.choice([0.0, 0.5, -0.5, 1.0, 0.25, -0.25]),
+                               "diff": lambda: rng.choice([0.5, -0.25, 1.0, 0.1, 0.75, -0.5]),
+                               "diff_log": lambda: rng.choice([0.01, 0.05, -0.02, 0.1, 0.03, -0.04]),
+                               "roc": lambda: rng.choice([1.01, 1.05, 0.98, 1.1, 0.95, 1.02]),
+                               "pct": lambda: rng.choice([1.0, 5.0, -2.0, 0.5, 2.5, -1.0])}[kind]
+                        db[dbn] = {"off": a, "values": [float(gen()) if rng.random() >= pn else NAN
+                                                         for _ in range(a, b + 1)]}
+                if rng.random() < 0.2:
+                    _zero_implied_point(rng, db, p, name)
+    # the order in which the equations are written, and what is done to the model object before it is simulated
+    neq = len(model["eqs"])
+    src_order = list(range(neq))
+    ops = []
+    if neq >= 2 and rng.random() < 0.35:
+        rng.shuffle(src_order)
+        r = rng.random()
+        if r < 0.45 and not wild:       # (the generated order of a non-wild model is sequential, so one exists)
+            ops.append(["sequentialize"])
+        elif r < 0.9:
+            # reorder_equations back into the generated order: new_order[k] = position of equation k in the source
+            ops.append(["reorder", [src_order.index(k) for k in range(neq)]])
+        # else: simulated as written (a model that is possibly not sequentially ordered)
+    elif neq >= 2 and rng.random() < 0.1:
+        perm = list(range(neq)); rng.shuffle(perm)
+        ops.append(["reorder", perm])
+        if rng.random() < 0.5 and not wild:
+            ops.append(["sequentialize"])
+    if rng.random() < 0.15:
+        ops.insert(rng.randint(0, len(ops)), ["copy"])
+    opts["assign_after_ops"] = rng.random() < 0.3
+    return {"model": model, "source": source_of(model, src_order), "src_order": src_order, "ops": ops,
+            "freq": freq, "start": start, "nper": nper, "db": db, "plan": plan, "opts": opts}
 
 
 def _db_get(db, name, k):
@@ -383,12 +420,13 @@ def _db_set(db, name, k, v):
     db[name] = {"off": min(vv), "values": [vv.get(j, NAN) for j in range(min(vv), max(vv) + 1)]}
 
 
-def _zero_implied_point(rng, db, p):
+def _zero_implied_point(rng, db, p, name=None):
     """Make the implied LEVEL of one exogenized point of plan entry p exactly 0.0 (a level pinned at zero, a rate of
     change of 0, a percent change of -100, a difference of minus the reference level, a flat path from a zero level):
     `0.0` is a perfectly good exogenized value and must not be taken for "no value"."""
-    kind, name, sh = p["kind"], p["name"], p["shift"]
-    dbn = plan_databox_name(p)
+    name = name if name is not None else plan_names(p)[0]
+    kind, sh = p["kind"], p["shift"]
+    dbn = plan_databox_name(p, name)
     c = rng.choice(p["cols"])
     if kind == "none":
         _db_set(db, dbn, c, 0.0)
@@ -414,9 +452,61 @@ def _zero_implied_point(rng, db, p):
     # log / diff_log: exp(.) is never zero
 
 
-def plan_databox_name(p) -> str | None:
+def plan_names(p, case_or_model=None) -> list:
+    """LHS names a plan entry (ONE plan.exogenize call) covers"""
+    return list(p["names"]) if "names" in p else [p["name"]]
+
+
+def plan_databox_name(p, name=None) -> str | None:
     fmt = p.get("name_format") or PLAN_FMT[p["kind"]]
-    return None if fmt is None else fmt.format(p["name"])
+    return None if fmt is None else fmt.format(name if name is not None else plan_names(p)[0])
+
+
+def plan_points(case) -> dict:
+    """the exogenized register: (name, column) -> (plan entry, databox name); later calls overwrite earlier ones"""
+    reg = {}
+    for p in case["plan"]:
+        for n in plan_names(p):
+            for c in p["cols"]:
+                reg[(n, c)] = (p, plan_databox_name(p, n))
+    return reg
+
+
+# ---- operations applied to the model object between construction and simulation
+
+def final_order(case, seq_oracle=None) -> list:
+    """Equation order (indexes into model["eqs"]) after the source order and the case's operations.
+    reorder_equations(new_order): explanatories = [old[i] for i in new_order].  The permutation returned by
+    sequentialize() (the blazer's choice, property C16) is an oracle recorded from the implementation."""
+    cur = list(case.get("src_order") or range(len(case["model"]["eqs"])))
+    k = 0
+    for op in case.get("ops", []):
+        if op[0] == "reorder":
+            cur = [cur[i] for i in op[1]]
+        elif op[0] == "sequentialize":
+            perm = (seq_oracle or [])[k] if seq_oracle is not None and k < len(seq_oracle) else None
+            k += 1
+            if perm is not None:
+                if sorted(perm) != list(range(len(cur))):
+                    raise ValueError(f"sequentialize returned {perm}, not a permutation")
+                cur = [cur[i] for i in perm]
+    return cur
+
+
+def is_sequential_order(model, order) -> bool:
+    """no equation reads, at shift 0, the LHS of itself or of a later equation (the precondition of dates_equations)"""
+    pos = {}
+    for k, i in enumerate(order):
+        pos.setdefault(model["eqs"][i]["lhs"], k)
+    if len(pos) != len(order):
+        return False
+    for k, i in enumerate(order):
+        for n, sh in tree_tokens(parse_rhs(model["eqs"][i]["rhs"])):
+            if n in pos and sh == 0 and pos[n] >= k:
+                return False
+            if n in pos and sh > 0:
+                return False
+    return True
 
 
 # ------------------------------------------------------------------ implementation
@@ -478,10 +568,29 @@ class Recorder:
         return f"{{| t_ln := {ln}; t_exp := {ex}; t_pow := [] |}}"
 
 
+def apply_ops(m, case):
+    """the case's operations on the model object; returns (model, permutations returned by sequentialize)"""
+    oracle = []
+    for op in case.get("ops", []):
+        if op[0] == "reorder":
+            m.reorder_equations(list(op[1]))
+        elif op[0] == "sequentialize":
+            oracle.append([int(i) for i in m.sequentialize()])
+        elif op[0] == "copy":
+            m = m.copy()
+        else:
+            raise ValueError(op)
+    return m, oracle
+
+
 def build_inputs(case):
     import irispie as ir
     m = ir.Sequential.from_string(case["source"])
-    if case["model"]["params"]:
+    late = case["opts"].get("assign_after_ops", False)
+    if case["model"]["params"] and not late:
+        m.assign(**case["model"]["params"])
+    m, oracle = apply_ops(m, case)
+    if case["model"]["params"] and late:
         m.assign(**case["model"]["params"])
     start = sc.mk_period(case["freq"], case["start"])
     span = ir.Span(start, start + case["nper"] - 1)
@@ -499,9 +608,11 @@ def build_inputs(case):
                 kw["shift"] = p["shift"]
             if p.get("name_format"):
                 kw["name_format"] = p["name_format"]
-            plan.exogenize(tuple(start + c for c in p["cols"]), p["name"],
-                           transform=None if p["kind"] == "none" else p["kind"], **kw)
-    return m, start, span, db, plan
+            names = plan_names(p)
+            names_arg = ... if p.get("ellipsis_names") else (names[0] if len(names) == 1 and "names" not in p else list(names))
+            dates_arg = ... if p.get("ellipsis_dates") else tuple(start + c for c in p["cols"])
+            plan.exogenize(dates_arg, names_arg, transform=None if p["kind"] == "none" else p["kind"], **kw)
+    return m, start, span, db, plan, oracle
 
 
 def series_values(x, start, lo, hi):
@@ -514,33 +625,57 @@ def series_values(x, start, lo, hi):
     return [float(v) for v in np.asarray(x.get_data(ir.Span(start + lo, start + hi)), dtype=float)[:, 0]]
 
 
-def run_impl(case, order=None, recorder=None) -> dict:
-    """Sequential.simulate through the public API; returns the output databox on the base span (+ presample)."""
+def _observe(case, out, start) -> dict:
+    lay = model_layout(case["model"])
+    lo = lay["min_shift"]
+    res = {"names": sorted(out.keys()), "base": {}, "pre": {}}
+    for n in out.keys():
+        res["base"][n] = series_values(out[n], start, 0, case["nper"] - 1)
+        if lo < 0:
+            res["pre"][n] = series_values(out[n], start, lo, -1)
+    return res
+
+
+def _err(e) -> dict:
+    cause = e.__cause__
+    return {"err": type(e).__name__, "exc": f"{type(e).__name__}: {e}"[:300],
+            "cause": f"{type(cause).__name__}: {cause}"[:200] if cause else None}
+
+
+def run_impl_multi(case, orders, recorders=None) -> list:
+    """Sequential.simulate through the public API, once per entry of `orders`, on ONE model object, ONE databox and ONE
+    plan object (state carried from one call to the next must not matter).  Each result carries the equation order
+    after the case's operations (`eq_order`, with sequentialize's permutation as recorded) and the LHS names in
+    equation order as the model object reports them."""
+    import warnings
     try:
-        m, start, span, db, plan = build_inputs(case)
-        o = case["opts"]
-        kwargs = dict(plan=plan, execution_order=order or o["order"], shocks_from_data=o["shocks_from_data"],
-                      parameters_from_data=o["parameters_from_data"], when_simulates_nan=o["when_simulates_nan"])
-        import warnings
         with warnings.catch_warnings(record=True), np.errstate(all="ignore"):
-            # (the simulator resets the warning filters itself; numpy's floating-point warnings are silenced via errstate)
-            if recorder is not None:
-                with recorder:
-                    out = m.simulate(db, span, **kwargs)
-            else:
-                out = m.simulate(db, span, **kwargs)
-        lay = model_layout(case["model"])
-        lo = lay["min_shift"]
-        res = {"names": sorted(out.keys()), "base": {}, "pre": {}}
-        for n in out.keys():
-            res["base"][n] = series_values(out[n], start, 0, case["nper"] - 1)
-            if lo < 0:
-                res["pre"][n] = series_values(out[n], start, lo, -1)
-        return {"ok": res}
+            m, start, span, db, plan, oracle = build_inputs(case)
+        eq_order = final_order(case, oracle)
+        lhs_in_eqs = list(m.lhs_names_in_equations)
     except Exception as e:  # noqa
-        cause = e.__cause__
-        return {"err": type(e).__name__, "exc": f"{type(e).__name__}: {e}"[:300],
-                "cause": f"{type(cause).__name__}: {cause}"[:200] if cause else None}
+        return [dict(_err(e), stage="build") for _ in orders]
+    o = case["opts"]
+    outs = []
+    for k, order in enumerate(orders):
+        try:
+            kwargs = dict(plan=plan, execution_order=order, shocks_from_data=o["shocks_from_data"],
+                          parameters_from_data=o["parameters_from_data"], when_simulates_nan=o["when_simulates_nan"])
+            with warnings.catch_warnings(record=True), np.errstate(all="ignore"):
+                # (the simulator resets the warning filters itself; numpy's warnings are silenced via errstate)
+                if recorders is not None:
+                    with recorders[k]:
+                        out = m.simulate(db, span, **kwargs)
+                else:
+                    out = m.simulate(db, span, **kwargs)
+            outs.append({"ok": _observe(case, out, start), "eq_order": eq_order, "lhs_in_eqs": lhs_in_eqs})
+        except Exception as e:  # noqa
+            outs.append(dict(_err(e), eq_order=eq_order, lhs_in_eqs=lhs_in_eqs))
+    return outs
+
+
+def run_impl(case, order=None, recorder=None) -> dict:
+    return run_impl_multi(case, [order or case["opts"]["order"]], None if recorder is None else [recorder])[0]
 
 
 # ------------------------------------------------------------------ the model's inputs, as the harness derives them
@@ -549,9 +684,10 @@ def model_inputs(case) -> dict:
     lay = model_layout(case["model"])
     names = list(lay["lhs"]) + list(lay["others"]) + list(lay["params"]) + list(lay["res"])
     for p in case["plan"]:
-        dn = plan_databox_name(p)
-        if dn is not None and dn not in names:
-            names.append(dn)
+        for n in plan_names(p):
+            dn = plan_databox_name(p, n)
+            if dn is not None and dn not in names:
+                names.append(dn)
     rows = {n: i for i, n in enumerate(names)}
     lo, hi = lay["min_shift"], case["nper"] - 1 + lay["max_shift"]
     o = case["opts"]
@@ -575,10 +711,8 @@ def model_inputs(case) -> dict:
         out_names += list(lay["params"])
     # the exogenized register: later calls overwrite earlier ones
     reg = {}
-    for p in case["plan"]:
-        dn = plan_databox_name(p)
-        for c in p["cols"]:
-            reg[(p["name"], c)] = (p["kind"], p["when_data"], p["shift"], None if dn is None else rows[dn])
+    for (n, c), (p, dn) in plan_points(case).items():
+        reg[(n, c)] = (p["kind"], p["when_data"], p["shift"], None if dn is None else rows[dn])
     return {"lay": lay, "names": names, "rows": rows, "lo": lo, "hi": hi, "table": table, "out_names": out_names,
             "register": reg}
 
@@ -594,10 +728,11 @@ Set Printing Depth 1000000.
 """
 
 
-def coq_case(case, mi, order) -> str:
+def coq_case(case, mi, order, eq_order=None) -> str:
     rows, lo = mi["rows"], mi["lo"]
     eqs = []
-    for e in case["model"]["eqs"]:
+    for i in (eq_order if eq_order is not None else final_order(case)):
+        e = case["model"]["eqs"][i]
         tree = parse_rhs(e["rhs"])
         res = "None" if e["identity"] else f"(Some {rows['res_' + e['lhs']]}%nat)"
         eqs.append(f"mkEqn FA {rows[e['lhs']]} {TR_COQ[e['tr']]} {coq_tree(tree, rows)} {res}")
@@ -632,7 +767,7 @@ def shard_text(items, rec: Recorder) -> str:
     cc, ff = [], []
     for case, mi, order, out in items:
         err, vals = expected_of(case, mi, out)
-        body = coq_case(case, mi, order)
+        body = coq_case(case, mi, order, out["eq_order"])
         if err is None:
             cc.append(f"  (snd {body},\n   {coq_list([coq_float(v) for v in vals])})")
             if case["opts"]["when_simulates_nan"] == "error":
@@ -662,12 +797,12 @@ def _case_stats(case, out, dist):
         k = ("?" if p["when_data"] else "!") + p["kind"]
         dist["plan_points"][k] = dist["plan_points"].get(k, 0) + len(p["cols"])
     dist["wild_models"] += int(case["model"]["wild"])
-    reg = {}
     for p in case["plan"]:
-        for c in p["cols"]:
-            reg[(p["name"], c)] = p
-    for (name, c), p in reg.items():
-        dbn = plan_databox_name(p)
+        dist["multi_name_exogenize_calls"] = dist.get("multi_name_exogenize_calls", 0) + int(len(plan_names(p)) > 1)
+    for op in case.get("ops", []):
+        dist.setdefault("model_ops", {})[op[0]] = dist.setdefault("model_ops", {}).get(op[0], 0) + 1
+    dist["source_order_shuffled"] = dist.get("source_order_shuffled", 0) + int(case["src_order"] != sorted(case["src_order"]))
+    for (name, c), (p, dbn) in plan_points(case).items():
         exo = _db_get(case["db"], dbn, c) if dbn else NAN
         ref = _db_get(case["db"], name, c + p["shift"])
         z = {"none": exo == 0, "roc": exo == 0 and ref == ref, "pct": exo == -100 and ref == ref,
@@ -692,9 +827,17 @@ def correspondence(ctx) -> CorrResult:
     for k in range(n_models):
         case = gen_case(rng)
         mi = model_inputs(case)
-        for order in ("dates_equations", "equations_dates"):
-            rec = Recorder()
-            out = run_impl(case, order, rec)
+        orders = ["dates_equations", "equations_dates"]
+        if rng.random() < 0.5:
+            orders.reverse()
+        case_recs = [Recorder(), Recorder()]
+        outs = run_impl_multi(case, orders, case_recs)        # both orders on the same model / databox / plan objects
+        for order, rec, out in zip(orders, case_recs, outs):
+            if "eq_order" in out and out["lhs_in_eqs"] != [case["model"]["eqs"][i]["lhs"] for i in out["eq_order"]]:
+                res.disagreements.append(Disagreement(
+                    "equation order after reorder_equations/sequentialize", {"case": case, "order": order},
+                    [case["model"]["eqs"][i]["lhs"] for i in out["eq_order"]], out["lhs_in_eqs"]))
+                continue
             if "err" in out and not (out["err"] in ("IrisPieError", "IrisPieCritical") and case["opts"]["when_simulates_nan"] == "error"
                                      and "nan or inf" in out["exc"]):
                 harness_errors += 1
@@ -815,7 +958,13 @@ def repro_script(case, order) -> str:
     start = f.format(case["start"]) if fr in (0,) else (f.format(case["start"]) if fr == 1 else
                                                       f.format(case["start"] // fr, case["start"] % fr + 1))
     L = ["import numpy as np, irispie as ir", f"m = ir.Sequential.from_string({case['source']!r})"]
-    if case["model"]["params"]:
+    late = case["opts"].get("assign_after_ops", False)
+    if case["model"]["params"] and not late:
+        L.append(f"m.assign(**{case['model']['params']!r})")
+    for op in case.get("ops", []):
+        L.append({"reorder": lambda: f"m.reorder_equations({list(op[1])!r})", "sequentialize": lambda: "m.sequentialize()",
+                  "copy": lambda: "m = m.copy()"}[op[0]]())
+    if case["model"]["params"] and late:
         L.append(f"m.assign(**{case['model']['params']!r})")
     L += [f"start = ir.{start}; span = start >> start + {case['nper'] - 1}", "db = ir.Databox()"]
     for n, s_ in case["db"].items():
@@ -826,8 +975,10 @@ def repro_script(case, order) -> str:
         for p in case["plan"]:
             kw = "".join([", when_data=True" if p["when_data"] else "", f", shift={p['shift']}" if p["shift"] != -1 else "",
                           f", name_format={p['name_format']!r}" if p.get("name_format") else ""])
-            cols = ", ".join(f"start + {c}" for c in p["cols"])
-            L.append(f"plan.exogenize(({cols},), {p['name']!r}, transform={None if p['kind'] == 'none' else p['kind']!r}{kw})")
+            cols = "..." if p.get("ellipsis_dates") else "(" + ", ".join(f"start + {c}" for c in p["cols"]) + ",)"
+            nm = plan_names(p)
+            names = "..." if p.get("ellipsis_names") else (repr(nm[0]) if "names" not in p else repr(list(nm)))
+            L.append(f"plan.exogenize({cols}, {names}, transform={None if p['kind'] == 'none' else p['kind']!r}{kw})")
     else:
         L.append("plan = None")
     o = case["opts"]
@@ -835,6 +986,21 @@ def repro_script(case, order) -> str:
              f"parameters_from_data={o['parameters_from_data']}, when_simulates_nan='silent')")
     L.append("print({n: out[n].get_data(span).ravel().tolist() for n in out.keys()})")
     return "\n".join(L)
+
+
+def reads_only_earlier_order(model, order) -> bool:
+    """every equation reads LHS names of earlier equations only (any shift <= 0) and its own at negative shifts
+    (the precondition of equations_dates)"""
+    pos = {}
+    for k, i in enumerate(order):
+        pos.setdefault(model["eqs"][i]["lhs"], k)
+    if len(pos) != len(order):
+        return False
+    for k, i in enumerate(order):
+        for n, sh in tree_tokens(parse_rhs(model["eqs"][i]["rhs"])):
+            if n in pos and (sh > 0 or pos[n] > k or (pos[n] == k and sh >= 0)):
+                return False
+    return True
 
 
 def check_property(case, order) -> tuple[list[Failure], dict]:
@@ -846,6 +1012,11 @@ def check_property(case, order) -> tuple[list[Failure], dict]:
     if "err" in out:
         return [Failure("simulate:raises", f"Sequential.simulate raises {out['exc']}", {"case": case, "order": order},
                         out["exc"], "a simulated databox", repro)], info
+    # the property's precondition "the order computes every value before it is read", on the order actually simulated
+    pre = is_sequential_order if order == "dates_equations" else reads_only_earlier_order
+    if not pre(case["model"], out["eq_order"]):
+        info["skipped_precondition"] = 1
+        return [], info
     mi = model_inputs(case)
     lay, lo = mi["lay"], mi["lo"]
     o = out["ok"]
@@ -870,10 +1041,7 @@ def check_property(case, order) -> tuple[list[Failure], dict]:
         return NAN
 
     fails = []
-    reg = {}
-    for p in case["plan"]:
-        for c in p["cols"]:
-            reg[(p["name"], c)] = p
+    reg = {k: v[0] for k, v in plan_points(case).items()}
     for e in case["model"]["eqs"]:
         tree = parse_rhs(e["rhs"])
         for t in range(case["nper"]):
@@ -904,7 +1072,7 @@ def check_property(case, order) -> tuple[list[Failure], dict]:
                     "transform(lhs) == rhs + residual", repro))
             # exogenized value
             if p is not None:
-                dbn = plan_databox_name(p)
+                dbn = plan_databox_name(p, e["lhs"])
                 exo = inp(dbn, t) if dbn is not None else 0.0
                 ref = get(e["lhs"], t + p["shift"])
                 if p["kind"] == "flat":
@@ -988,12 +1156,59 @@ def _zero_cases() -> list:
     return out
 
 
+def _sequence_cases() -> list:
+    """Fixed cases for call sequences on one object and for plan calls covering several names:
+    equations written out of order then sequentialize() / reorder_equations() / copy() before simulating;
+    ONE exogenize call for several names (list and ...) whose conditioning data differ."""
+    model = {"eqs": [{"lhs": "y1", "tr": "none", "rhs": "0.8*y1[-1] + 0.5*z1", "identity": False},
+                     {"lhs": "y2", "tr": "diff", "rhs": "0.2*y1 - 0.1*y2[-1]", "identity": False},
+                     {"lhs": "y3", "tr": "pct", "rhs": "0.5*y2 + p1", "identity": False},
+                     {"lhs": "y4", "tr": "none", "rhs": "y1 + y2 + y3", "identity": True}],
+             "params": {"p1": 0.5}, "exo": ["z1"], "wild": False, "forward_free": True}
+    db = {"y1": {"off": -1, "values": [1.5]}, "y2": {"off": -1, "values": [1.0]}, "y3": {"off": -1, "values": [2.0]},
+          "z1": {"off": -1, "values": [1.0, 0.75, 1.25, 0.5, 1.5]},
+          "res_y1": {"off": 0, "values": [0.01, -0.02, 0.03, 0.01]}, "res_y3": {"off": 0, "values": [0.02, 0.0, -0.01, 0.01]}}
+    opts = {"order": "dates_equations", "shocks_from_data": True, "parameters_from_data": False,
+            "when_simulates_nan": "silent", "assign_after_ops": False}
+
+    def P(names, kind, cols, **kw):
+        return dict({"names": names, "kind": kind, "cols": cols, "when_data": False, "shift": -1, "name_format": None,
+                     "ellipsis_names": False, "ellipsis_dates": False}, **kw)
+    multi_db = {"diff_y1": {"off": 0, "values": [0.5, 0.25, -0.25, 0.1]}, "diff_y2": {"off": 0, "values": [1.0, -0.5, 0.75, 0.3]},
+                "diff_y3": {"off": 0, "values": [-0.1, 0.2, 0.4, -0.3]}}
+    level_db = {"y1": {"off": -1, "values": [1.5, 2.0, 2.25, 2.5, 2.75]}, "y2": {"off": -1, "values": [1.0, 0.5, 0.75, 1.25, 1.5]},
+                "y3": {"off": -1, "values": [2.0, 3.0, 3.5, 4.0, 4.5]}}
+    variants = [
+        # (source order, operations, plan, extra data)
+        ([3, 2, 1, 0], [["sequentialize"]], [], {}),
+        ([2, 0, 3, 1], [["sequentialize"]], [P(["y2"], "diff", [1, 2])], multi_db),
+        ([1, 0, 2, 3], [["reorder", [1, 0, 2, 3]]], [], {}),
+        ([3, 2, 1, 0], [["reorder", [3, 2, 1, 0]], ["copy"]], [P(["y1"], "none", [1])], level_db),
+        ([0, 1, 2, 3], [["reorder", [1, 0, 3, 2]], ["sequentialize"]], [], {}),
+        ([2, 3, 0, 1], [["copy"], ["reorder", [2, 3, 0, 1]]], [], {}),
+        ([0, 1, 2, 3], [], [P(["y1", "y2", "y3"], "diff", [0, 1, 2, 3])], multi_db),
+        ([0, 1, 2, 3], [], [P(["y3", "y1"], "diff", [1, 2], when_data=True)], multi_db),
+        ([0, 1, 2, 3], [], [P(["y1", "y2", "y3"], "none", [1, 2], ellipsis_names=True)], level_db),
+        ([0, 1, 2, 3], [], [P(["y2", "y3"], "none", [0, 1, 2, 3], ellipsis_dates=True)], level_db),
+        ([1, 3, 0, 2], [["sequentialize"]], [P(["y1", "y2", "y3"], "diff", [0, 2], ellipsis_names=True)], multi_db),
+    ]
+    out = []
+    for src_order, ops, plan, extra in variants:
+        d = {k: dict(v) for k, v in db.items()}
+        d.update({k: dict(v) for k, v in extra.items()})
+        for late in (False, True):
+            out.append({"model": model, "source": source_of(model, src_order), "src_order": src_order, "ops": ops,
+                        "freq": 4, "start": 8080, "nper": 4, "db": d, "plan": plan,
+                        "opts": dict(opts, assign_after_ops=late)})
+    return out
+
+
 def falsify(ctx, hints):
     rng = ctx.rng
     fails: list[Failure] = []
-    info = {"models": 0, "equation_cells": 0, "exogenized_cells": 0, "skipped_nonfinite": 0}
+    info = {"models": 0, "equation_cells": 0, "exogenized_cells": 0, "skipped_nonfinite": 0, "skipped_precondition": 0}
     cases = [(WITNESS, "dates_equations"), (WITNESS, "equations_dates")]
-    for zc in _zero_cases():
+    for zc in _zero_cases() + _sequence_cases():
         cases += [(zc, "dates_equations"), (zc, "equations_dates")]
     for d in (hints or {}).get("disagreements", [])[:10]:
         inp = d.get("input") if isinstance(d, dict) else None
@@ -1004,13 +1219,12 @@ def falsify(ctx, hints):
         c = gen_case(rng, wild=False)
         c["opts"]["when_simulates_nan"] = "silent"
         cases.append((c, "dates_equations"))
-        if c["model"]["forward_free"]:
-            cases.append((c, "equations_dates"))
+        cases.append((c, "equations_dates"))          # (checked only if the simulated order reads earlier equations only)
     for c, order in cases:
         fs, i = check_property(c, order)
         info["models"] += 1
-        for k in ("equation_cells", "exogenized_cells", "skipped_nonfinite"):
-            info[k] += i[k]
+        for k in ("equation_cells", "exogenized_cells", "skipped_nonfinite", "skipped_precondition"):
+            info[k] += i.get(k, 0)
         fails += fs
         if len(fails) > 40:
             break
